@@ -197,6 +197,9 @@ func runPipe(t *core.T, faults bool) {
 			if s.Chance(1, 300, "bigmsg") {
 				x.g = gen.Big(s) // one very large message in the middle of a stream of small ones
 			}
+			if n := len(pl.msgs); n > 0 && s.Chance(1, 10, "samemsg") {
+				x.g = pl.msgs[n-1].g // the very same value twice in a row
+			}
 			pl.msgs = append(pl.msgs, x)
 		})
 		w := 0
